@@ -388,7 +388,7 @@ def build(tier, seed):
     chk.canary('canary.update.rank', canary_update)
     chk.replayer('C09.', replay_c09)
     chk.fallback('B4.c09.histories', lambda: replay_c09(None),
-                 'random POST/PUT/DELETE /resource_providers histories over a pool of 8 providers at microversions 1.13/1.14/1.36/1.37/1.39, forest and root pointers re-derived from the raw rows after every request; quick: 40 histories x 25 requests, thorough: 400 x 40',
+                 'random POST/PUT/DELETE /resource_providers histories over a pool of 8 providers at microversions 1.13/1.14/1.36/1.37/1.39, forest and root pointers re-derived from the raw rows after every request, ResourceProvider.get_subtree compared with the descendants computed from the raw rows for every provider (the assumed contract A-subtree); quick: 40 histories x 25 requests, thorough: 400 x 40',
                  always=True)
     chk.assume('A-int', 'A-heap', 'A-sql', 'A-orm', 'A-key', 'A-txn',
                'A-subtree', 'A-nofault')
